@@ -390,7 +390,8 @@ constexpr auto operator-(QuantityPoint<U1, R1> p1, QuantityPoint<U2, R2> p2) {
 template <typename U1, typename R1, typename U2, typename R2>
 constexpr auto operator<=>(const QuantityPoint<U1, R1> &lhs, const QuantityPoint<U2, R2> &rhs) {
     using U = CommonPointUnitT<U1, U2>;
-    return lhs.in(U{}) <=> rhs.in(U{});
+    using R = std::common_type_t<R1, R2>;
+    return rep_cast<R>(lhs).in(U{}) <=> rep_cast<R>(rhs).in(U{});
 }
 #endif
 
